@@ -721,3 +721,15 @@ Lemma argmax_from_lt x t i best bv : bv < x -> argmax_from (x :: t) i best bv = 
 Proof. intros H. cbn [argmax_from]. destruct (Rlt_dec bv x); [reflexivity | lra]. Qed.
 Lemma argmax_from_ge x t i best bv : x <= bv -> argmax_from (x :: t) i best bv = argmax_from t (S i) best bv.
 Proof. intros H. cbn [argmax_from]. destruct (Rlt_dec bv x); [lra | reflexivity]. Qed.
+
+(* the reparametrised sample mean + noise * exp(log_std): its log-density depends on the noise only (model mutation score:
+   pins that the sample scales the noise with the standard deviation exp(snd), not with the mean) *)
+Lemma gauss_logprob_rsample p : forall noise, length noise = length p ->
+  gauss_logprob p (gauss_rsample p noise)
+  = sumR (map2 (fun ml e => - e ^ 2 / 2 - snd ml - ln (sqrt (2 * PI))) p noise).
+Proof.
+  unfold gauss_logprob, gauss_logpdfs, gauss_rsample.
+  induction p as [|[m s] p IH]; intros [|e noise] Hl; cbn in Hl; try discriminate; cbn [map2]; [reflexivity|].
+  rewrite !sumR_cons. cbn [fst snd]. rewrite IH by lia.
+  rewrite normal_logpdf_rsample by (pose proof (exp_pos s); lra). rewrite ln_exp. reflexivity.
+Qed.
